@@ -44,7 +44,7 @@ def witnessProgramInfo (s : List UInt8) : Option (Nat × List UInt8) :=
 def canonicalPush (d : List UInt8) : List UInt8 :=
   match d with
   | [] => [0x00]
-  | [b] => if 1 ≤ b && b ≤ 16 then [0x50 + b] else if b = 0x81 then [0x4f] else [1, b]
+  | [b] => if b = 0 then [0x00] else if 1 ≤ b && b ≤ 16 then [0x50 + b] else if b = 0x81 then [0x4f] else [1, b]
   | _ =>
     if d.length ≤ 75 then UInt8.ofNat d.length :: d
     else if d.length ≤ 255 then 0x4c :: UInt8.ofNat d.length :: d
